@@ -387,6 +387,8 @@ static void _GD_Delete(DIRFILE *restrict D, gd_entry_t *restrict E,
   /* Fix up reference fields */
   if (reference != NULL)
     D->reference_field = reference;
+  else if (D->reference_field == E)
+    D->reference_field = NULL; /* no RAW field left to take over */
 
   if (new_ref != NULL) {
     for (i = 0; i < D->n_fragment; ++i)
